@@ -303,7 +303,7 @@ CLAIMS = {
        "nested key lists, RSA keys with inconsistent members, OpenSSL conversion functions. Found and fixed through this "
        "check or its instrumentation: F5 (borrowed reference released), F20 (decoded protected header leaked on every "
        "decryption), F21 (RSA d leaked on failed import), F8 (NULL dereference), F2 (heap over-read).",
-  technique="Lean 4 theorem proving (buffer bounds for all inputs; ownership scripts over all JSON types) + sanitizer-"
+  technique="Lean 4 theorem proving (buffer bounds for all inputs; ownership scripts over all JSON types; operational reference counts of IO chains of any length under every release order) + sanitizer-"
             "instrumented mutation differential (validation)",
   design="§6 C09"),
  "C20": dict(
@@ -321,7 +321,7 @@ CLAIMS = {
        "skipped), F4 (hash done returned true on failure). Known findings (open, printed as KNOWN-FINDING): jansson 2.14 "
        "json_dumps / json_object_update_missing report success after an internal allocation failure, json_loadb crashes, and "
        "latchset/jose reads json_unpack's failure as 'member absent' (~60 sites).",
-  technique="Lean 4 theorem proving (failure propagation, by induction over chain syntax) + exhaustive per-scenario "
+  technique="Lean 4 theorem proving (failure propagation, by induction over chain syntax; allocation-fault schedules over a checked call: a firing fault fails it, never a lie or crash) + exhaustive per-scenario "
             "allocation-fault enumeration (validation)",
   design="§6 C20"),
  "C18": dict(
